@@ -35,6 +35,7 @@ func NewCachedRoutes(size int) *cachedRoutes {
 
 // Len cache len
 func (c *cachedRoutes) Len() int {
+	verifYield("cache.lock.len")
 	c.lock.RLock()
 	defer c.lock.RUnlock()
 	return c.list.Len()
@@ -42,6 +43,7 @@ func (c *cachedRoutes) Len() int {
 
 // Set route key and Route
 func (c *cachedRoutes) Set(k string, v *Route) bool {
+	verifYield("cache.lock.set")
 	c.lock.Lock()
 	defer c.lock.Unlock()
 
@@ -75,6 +77,7 @@ func (c *cachedRoutes) Set(k string, v *Route) bool {
 
 // Get cached Route by key
 func (c *cachedRoutes) Get(k string) (*Route, bool) {
+	verifYield("cache.lock.get")
 	c.lock.RLock()
 	defer c.lock.RUnlock()
 
@@ -90,6 +93,7 @@ func (c *cachedRoutes) Get(k string) (*Route, bool) {
 
 // Delete Router by key
 func (c *cachedRoutes) Delete(k string) bool {
+	verifYield("cache.lock.delete")
 	c.lock.Lock()
 	defer c.lock.Unlock()
 
